@@ -519,13 +519,17 @@ func runSupervisor(args []string) int {
 		cov["notes"] = agg.Notes
 	}
 	cov["known_findings_seen"] = knownSeen
+	assumptions := p.Assumptions
+	if assumptions == nil {
+		assumptions = []string{}
+	}
 	ev := map[string]any{
 		"property_id": c.prop,
 		"tier":        c.tier,
 		"seed":        c.seed,
 		"level":       p.Level,
 		"coverage":    cov,
-		"assumptions": p.Assumptions,
+		"assumptions": assumptions,
 		"wall_s":      float64(int(time.Since(startT).Seconds()*100)) / 100,
 		"violations":  unknownViolations,
 	}
